@@ -542,6 +542,27 @@ func c04MixedItems(r *Run) {
 						map[string]any{"template": shadow, "expected": want, "got": got, "err": fmt.Sprint(serr)})
 				}
 			}
+			// static text right before a loop element, the parent's closing tag right after it: a loop without output leaves
+			// nothing behind, and a v-else is shown for an empty loop only
+			{
+				for _, cs := range []struct{ tpl, want string }{
+					{`<ul>items:<li v-for="x in none">{{ x }}</li></ul>`, `<ul>items:</ul>`},
+					{`<ul> <li v-for="x in none">{{ x }}</li></ul>`, `<ul></ul>`},
+					{`<ul>a<li v-for="x in two">{{ x }}</li> <li v-else>none</li></ul>`, `<ul>a<li>1</li><li>2</li></ul>`},
+					{`<ul>a<li v-for="x in none">{{ x }}</li> <li v-else>none</li></ul>`, `<ul>a<li>none</li></ul>`},
+					{`<section><div v-for="r in rows2">t<span v-for="c in r.cells">{{ c }}</span></div></section>`, `<section><div>t<span>1</span></div><div>t</div></section>`},
+					{`<div><b>k</b> text <span v-for="x in missing">{{ x }}</span></div><p>after</p>`, `<div><b>k</b>text</div><p>after</p>`},
+				} {
+					var sb bytes.Buffer
+					serr := eng.New().Fill(map[string]any{"none": []any{}, "two": []any{1, 2}, "rows2": []any{map[string]any{"cells": []any{1}}, map[string]any{"cells": []any{}}}}).RenderString(context.Background(), &sb, cs.tpl)
+					got := strings.Join(strings.Fields(sb.String()), "")
+					r.Eval(fmt.Sprintf("text-before-loop:%d:%d", c, round), true, nil)
+					if serr != nil || got != cs.want {
+						r.Fail("a loop next to static text leaves unevaluated template nodes behind or shows a wrong v-else", map[string]string{"oracle": "text-before-loop", "kind": "oracle"},
+							map[string]any{"template": cs.tpl, "expected": cs.want, "got": got, "err": fmt.Sprint(serr)})
+					}
+				}
+			}
 			tpl := `<i v-for="(i, x) in xs" :data-t="x">{{ i }}={{ x }}</i>` +
 				`<b v-for="item in users" v-if="item.Active">{{ item.Name }}</b>` +
 				`<u v-for="item in groups" v-if="item.Active">{{ item.Name }}{{ item.Size }}</u>` +
